@@ -150,6 +150,20 @@ def tamper_rules(prog, chk, pid, tier):
     chk.require(bad is None, P("crafted-single-defect"), fr.qualname, "%d images, each violating one rule: %s" % (len(defects), ", ".join(defects)), where,
                 "an image is refused when the sentinel is missing, a description tag repeats, the declared length exceeds the stored length, addresses are not absolute and contiguous, an entry MAC was made with another entry index, or the directory size does not match",
                 "defect %s: %s" % bad if bad else "")
+    # ---- well-formed images with unusual but legal field values: accepted, and the content is what the fields say
+    odd = [("ENC tag present with a two-byte value 00 02 (not the writer's one-byte 02): the payload is plain", [F.Comp([(enc_tag, [C(0), C(enc_val)])], R.syms("p", 16), False)]),
+           ("ENC tag with the value 00 (plain)", [F.Comp([(enc_tag, [C(0)])], R.syms("q", 5), False)]),
+           ("empty ENC tag value", [F.Comp([(enc_tag, [])], R.syms("r", 7), False)])]
+    bad = None
+    for label, cs in odd:
+        oimg = sig + F.ref_binary(cs, len(sig), sk)
+        ex2, res2 = read(oimg)
+        got = _content(ex2, res2) if not res2.dead and res2.ret is not None else None
+        want_c = [(tuple((t, tuple(x.uid for x in v)) for t, v in c.tags), tuple(x.uid for x in c.blob), len(c.blob), False) for c in cs]
+        if got != want_c:
+            bad = bad or (label, "is %s" % ("rejected (%s)" % (ex2._dead[1] if ex2._dead else "?") if got is None else "read with other content / flags than its fields say"))
+    chk.require(bad is None, P("odd-but-valid-images"), fr.qualname, "%d well-formed images with unusual ENC tag values" % len(odd), where,
+                "a well-formed authentic image is accepted and every component comes back with exactly its tags, its stored bytes and the encryption flag its ENC tag says", "%s: %s" % bad if bad else "")
     # ---- wrong session key
     o, why = outcome(img, mk("param", "other_key"))
     chk.require(o == "rejected", P("tamper-wrong-key"), fr.qualname, "authentic image read under another session key", where, "reading with a different session key is rejected", "image read under another key: %s %s" % (o, why))
